@@ -69,8 +69,15 @@ def mk(kind, q, txt, note="gen"):
 def randcase(rng, b): return bytes(c ^ 32 if (65 <= c <= 90 or 97 <= c <= 122) and rng.random() < 0.5 else c for c in b)
 
 
+_DR = None
 def rand_literal(rng):
+    global _DR
+    import numlib
+    if _DR is None: _DR = [x.encode() for x in numlib.f32_double_rounding_literals(rng, 60)]
     k = rng.random()
+    if k < 0.12: return rng.choice(_DR)
+    if k < 0.2: return rng.choice([b"0" * 255 + b"5", b"." + b"0" * 255 + b"5", b"0" * 511 + b"1", b"0" * 256 + b"2.5", b"1E+0000000003", b"2.5E-0000000001", b"1e00000000000000000002",
+                                   b"0" * 37 + b"42", b"1." + b"0" * 300 + b"1", b"00012.50", b"5e-0000000000001"])
     if k < 0.4:
         v = rng.choice([2**31 - 1, 2**31, 2**32 - 1, 2**32, 2**32 + 1, 9999999999, 6000000000, 5294967296, 10**10, 10**9, 123456789012, rng.randrange(10**rng.randint(1, 12))])
         return (rng.choice(["", "+", "-", "0", "00"]) + str(v)).encode()
